@@ -161,3 +161,172 @@ Proof.
   - norm_app. unfold p_fetch. rd. grouped T.
     intros tp pp wa r _ _ Ep. cbn [pack_list] in Ep. inv_do Ep. norm_app. split; [rd; reflexivity|first_nonempty].
 Qed.
+
+(* ------------------------------------------------------------------ ListOffsets v0 *)
+Definition canon_offsets (payloads : list offset_payload) :=
+  canon_topics (fun pp : Z * offset_payload => (fst pp, of_time (snd pp), of_max_offsets (snd pp)))
+               (group_by_topic_and_partition of_topic of_partition payloads).
+
+Theorem offsets_parses orc cid corr payloads w :
+  encode_offset_request cid corr payloads = Ok w ->
+  topics_present of_topic payloads = true ->
+  parse_request orc w = Some (mkSreq 2 0 corr (Some cid) (SListOffsets (-1) (canon_offsets payloads))).
+Proof.
+  unfold encode_offset_request. intros H T. cbn [pack_list] in H. inv_do H.
+  eapply parse_request_intro; [eassumption|reflexivity|].
+  norm_app. unfold p_list_offsets. rd. grouped T.
+  intros tp pp wa r _ _ Ep. cbn [pack_list] in Ep. inv_do Ep. norm_app. split; [rd; reflexivity|first_nonempty].
+Qed.
+
+(* ------------------------------------------------------------------ Metadata v0 *)
+Theorem metadata_parses orc cid corr topics w :
+  encode_metadata_request cid corr topics = Ok w ->
+  forallb present topics = true ->
+  parse_request orc w = Some (mkSreq 3 0 corr (Some cid) (SMetadata (map abytes topics))).
+Proof.
+  unfold encode_metadata_request. intros H T. inv_do H.
+  eapply parse_request_intro; [eassumption|reflexivity|].
+  unfold p_metadata, pbind.
+  match goal with Ec : pack Fi (llen topics) = Ok ?c0, Ee : enc_all write_short_ascii topics = Ok ?w0 |- _ =>
+    rewrite <- (app_nil_r w0);
+    erewrite (ARRAY_enc_all write_short_ascii STRING abytes topics c0 w0 []); [reflexivity| |exact Ec|exact Ee] end.
+  intros a wa r Ia Ea. rewrite forallb_forall in T. split.
+  - apply STRING_ascii'; auto.
+  - eapply write_short_ascii_nonempty; eauto.
+Qed.
+
+(* ------------------------------------------------------------------ FindCoordinator (GroupCoordinator) v0 *)
+Theorem find_coordinator_parses orc cid corr group w :
+  encode_consumermetadata_request cid corr group = Ok w ->
+  present group = true ->
+  parse_request orc w = Some (mkSreq 10 0 corr (Some cid) (SFindCoordinator (abytes group))).
+Proof.
+  unfold encode_consumermetadata_request. intros H G. inv_do H.
+  eapply parse_request_intro; [eassumption|reflexivity|].
+  unfold p_find_coordinator.
+  match goal with E : write_short_ascii group = Ok ?a |- _ => rewrite <- (app_nil_r a) end. rd. reflexivity.
+Qed.
+
+(* ------------------------------------------------------------------ OffsetCommit v1 *)
+Definition canon_commit (payloads : list commit_payload) :=
+  canon_topics (fun pp : Z * commit_payload =>
+                  (fst pp, co_offset (snd pp), co_timestamp (snd pp), co_metadata (snd pp)))
+               (group_by_topic_and_partition co_topic co_partition payloads).
+
+Theorem offset_commit_parses orc cid corr group gen consumer payloads w :
+  encode_offset_commit_request cid corr group gen consumer payloads = Ok w ->
+  present group = true -> present consumer = true -> topics_present co_topic payloads = true ->
+  parse_request orc w = Some (mkSreq 8 1 corr (Some cid)
+                                     (SOffsetCommit (abytes group) gen (abytes consumer) (canon_commit payloads))).
+Proof.
+  unfold encode_offset_commit_request. intros H G C T. inv_do H.
+  eapply parse_request_intro; [eassumption|reflexivity|].
+  norm_app. unfold p_offset_commit. rd. grouped T.
+  intros tp pp wa r _ _ Ep. cbn [pack_list] in Ep. inv_do Ep. norm_app. split; [rd; reflexivity|first_nonempty].
+Qed.
+
+(* ------------------------------------------------------------------ OffsetFetch v1 *)
+Definition canon_ofetch (payloads : list ofetch_payload) :=
+  canon_topics (fun pp : Z * ofetch_payload => fst pp)
+               (group_by_topic_and_partition og_topic og_partition payloads).
+
+Theorem offset_fetch_parses orc cid corr group payloads w :
+  encode_offset_fetch_request cid corr group payloads = Ok w ->
+  present group = true -> topics_present og_topic payloads = true ->
+  parse_request orc w = Some (mkSreq 9 1 corr (Some cid) (SOffsetFetch (abytes group) (canon_ofetch payloads))).
+Proof.
+  unfold encode_offset_fetch_request. intros H G T. inv_do H.
+  eapply parse_request_intro; [eassumption|reflexivity|].
+  norm_app. unfold p_offset_fetch. rd. grouped T.
+  intros tp pp wa r _ _ Ep. split; [rd; reflexivity|eapply pack_nonempty; eauto].
+Qed.
+
+(* ------------------------------------------------------------------ Heartbeat v0, LeaveGroup v0 *)
+Theorem heartbeat_parses orc cid corr group gen member w :
+  encode_heartbeat_request cid corr group gen member = Ok w ->
+  present group = true -> present member = true ->
+  parse_request orc w = Some (mkSreq 12 0 corr (Some cid) (SHeartbeat (ubytes group) gen (ubytes member))).
+Proof.
+  unfold encode_heartbeat_request. intros H G M. inv_do H.
+  eapply parse_request_intro; [eassumption|reflexivity|].
+  unfold p_heartbeat.
+  norm_app.
+  match goal with E : write_short_text member = Ok ?a |- _ => rewrite <- (app_nil_r a) end.
+  rd. reflexivity.
+Qed.
+
+Theorem leave_group_parses orc cid corr group member w :
+  encode_leave_group_request cid corr group member = Ok w ->
+  present group = true -> present member = true ->
+  parse_request orc w = Some (mkSreq 13 0 corr (Some cid) (SLeaveGroup (ubytes group) (ubytes member))).
+Proof.
+  unfold encode_leave_group_request. intros H G M. inv_do H.
+  eapply parse_request_intro; [eassumption|reflexivity|].
+  unfold p_leave_group.
+  norm_app.
+  match goal with E : write_short_text member = Ok ?a |- _ => rewrite <- (app_nil_r a) end.
+  rd. reflexivity.
+Qed.
+
+(* ------------------------------------------------------------------ JoinGroup v0 *)
+Definition protocols_present (ps : list (text * obytes)) : bool :=
+  forallb (fun gp => present (fst gp) && present (snd gp)) ps.
+
+Theorem join_group_parses orc cid corr p w :
+  encode_join_group_request cid corr p = Ok w ->
+  present (jg_group p) = true -> present (jg_member_id p) = true -> present (jg_protocol_type p) = true ->
+  protocols_present (jg_protocols p) = true ->
+  parse_request orc w = Some (mkSreq 11 0 corr (Some cid)
+    (SJoinGroup (ubytes (jg_group p)) (jg_session_timeout p) (ubytes (jg_member_id p)) (ubytes (jg_protocol_type p))
+                (map (fun gp => (abytes (fst gp), obytes_val (snd gp))) (jg_protocols p)))).
+Proof.
+  unfold encode_join_group_request. intros H G M T PP. inv_do H.
+  eapply parse_request_intro; [eassumption|reflexivity|].
+  norm_app. unfold p_join_group. rd.
+  match goal with Ec : pack Fi (llen (jg_protocols p)) = Ok ?c0, Ee : enc_all ?enc (jg_protocols p) = Ok ?w0 |- _ =>
+    rewrite <- (app_nil_r w0);
+    erewrite (ARRAY_enc_all enc _ (fun gp => (abytes (fst gp), obytes_val (snd gp))) (jg_protocols p) c0 w0 []);
+    [reflexivity| |exact Ec|exact Ee] end.
+  intros gp wa r Ig Eg. unfold protocols_present in PP. rewrite forallb_forall in PP.
+  pose proof (PP gp Ig) as Pg. apply andb_prop in Pg. destruct Pg as [Pn Pm].
+  inv_do Eg. norm_app. split; [|first_nonempty].
+  destruct gp as [n [md|]]; [|discriminate Pm]. cbn [fst snd obytes_val] in *. rd. reflexivity.
+Qed.
+
+(* ------------------------------------------------------------------ SyncGroup v0 *)
+Theorem sync_group_parses orc cid corr p w :
+  encode_sync_group_request cid corr p = Ok w ->
+  present (sg_group p) = true -> present (sg_member_id p) = true ->
+  protocols_present (sg_assignment p) = true ->
+  parse_request orc w = Some (mkSreq 14 0 corr (Some cid)
+    (SSyncGroup (ubytes (sg_group p)) (sg_generation_id p) (ubytes (sg_member_id p))
+                (map (fun ma => (ubytes (fst ma), obytes_val (snd ma))) (sg_assignment p)))).
+Proof.
+  unfold encode_sync_group_request. intros H G M PP. inv_do H.
+  eapply parse_request_intro; [eassumption|reflexivity|].
+  norm_app. unfold p_sync_group. rd.
+  match goal with Ec : pack Fi (llen (sg_assignment p)) = Ok ?c0, Ee : enc_all ?enc (sg_assignment p) = Ok ?w0 |- _ =>
+    rewrite <- (app_nil_r w0);
+    erewrite (ARRAY_enc_all enc _ (fun ma => (ubytes (fst ma), obytes_val (snd ma))) (sg_assignment p) c0 w0 []);
+    [reflexivity| |exact Ec|exact Ee] end.
+  intros gp wa r Ig Eg. unfold protocols_present in PP. rewrite forallb_forall in PP.
+  pose proof (PP gp Ig) as Pg. apply andb_prop in Pg. destruct Pg as [Pn Pm].
+  inv_do Eg. norm_app. split; [|first_nonempty].
+  destruct gp as [n [md|]]; [|discriminate Pm]. cbn [fst snd obytes_val] in *. rd. reflexivity.
+Qed.
+
+(* ------------------------------------------------------------------ ApiVersions v0: header only *)
+Theorem api_versions_parses orc cid corr w :
+  encode_api_versions_request cid corr API_VERSIONS_KEY 0 = Ok w ->
+  parse_request orc w = Some (mkSreq 18 0 corr (Some cid) SApiVersions).
+Proof.
+  unfold encode_api_versions_request. intros H. rewrite <- (app_nil_r w).
+  eapply parse_request_intro; [exact H|reflexivity|reflexivity].
+Qed.
+
+(* the header of an ApiVersions request carries exactly the key and version of the ApiVersionRequest given
+   (fix 3e08fad), and nothing follows it *)
+Theorem api_versions_header cid corr key ver w :
+  encode_api_versions_request cid corr key ver = Ok w ->
+  p_header w = Some ((key, ver, corr, Some cid), []).
+Proof. unfold encode_api_versions_request. intros H. rewrite <- (app_nil_r w). now apply header_parse. Qed.
